@@ -37,6 +37,7 @@ func isEthMutator(f *types.Func) bool {
 }
 
 func runC18(p *an.Prog, r *an.Run, tier string) {
+	checkSurfaceClosed(p, r)
 	up := p.Method("agent", "Agent", "UpdatePeers")
 	ap := p.Method("agent", "Agent", "AddPeers")
 	if up == nil || ap == nil {
@@ -272,6 +273,21 @@ func runC18(p *an.Prog, r *an.Run, tier string) {
 	bad = nil
 	isStrict := func(v ssa.Value) bool { return fieldLoadOf(v, "Agent", "StrictPeers") }
 	nStores := 0
+	// the pool's ACTIVE list is never edited by the agent: the shortfall is NumHosts minus what the pool lists, and the
+	// strict lookup is built from it ("approving" pinned peers by appending them makes the agent request fewer hosts)
+	for _, f := range regionFuncs(p, up) {
+		an.AllInstrs(f, func(in ssa.Instruction) {
+			st, ok := in.(*ssa.Store)
+			if !ok {
+				return
+			}
+			if fv := an.FieldOf(st.Addr); fv != nil && fv.Name() == "ActivePeers" {
+				if n := structOfFieldAccess(st.Addr); n != nil && n.Obj().Name() == "UpdateResponse" {
+					bad = append(bad, "the pool's ActivePeers list is modified at "+p.Pos(st.Pos())+": the shortfall and the strict comparison no longer work on what the pool said")
+				}
+			}
+		})
+	}
 	an.AllInstrs(up, func(in ssa.Instruction) {
 		st, ok := in.(*ssa.Store)
 		if !ok {
